@@ -72,6 +72,11 @@ impl<F: NttFriendlyFieldElement, S: ParallelSumGadget<F, Mul>> L1BoundSum<F, S> 
                 "chunk_length cannot be zero".to_string(),
             ));
         }
+        if measurement_len == usize::MAX {
+            return Err(FlpError::InvalidParameter(
+                "measurement_len+1 overflows addressable memory".to_string(),
+            ));
+        }
         if max_value <= F::Integer::zero() {
             return Err(FlpError::InvalidParameter(
                 "max_value must be positive".to_string(),
